@@ -3,9 +3,17 @@ PROPERTY = "C07"
 LEVEL = "proof"
 FUNCTIONS = ['uxarray.io._ugrid._encode_ugrid',
     'uxarray.io._exodus._read_exodus@coordxyz',
-    'uxarray.io._exodus._read_exodus@coordxyz2']
+    'uxarray.io._exodus._read_exodus@coordxyz2',
+    'uxarray.grid.grid.Grid.to_xarray@ugrid',
+    'uxarray.grid.grid.Grid.to_xarray@exodus',
+    'uxarray.grid.grid.Grid.to_xarray@scrip',
+    'uxarray.grid.grid.Grid.to_xarray@bogus',
+    'uxarray.grid.grid.Grid.encode_as@UGRID',
+    'uxarray.grid.grid.Grid.encode_as@Exodus',
+    'uxarray.grid.grid.Grid.encode_as@SCRIP',
+    'uxarray.grid.grid.Grid.encode_as@bogus']
 STANDINS = ["roundtrip"]
 ASSUMPTIONS = []
 EXPLANATION = ""
-LEVEL_TEXT = '_read_exodus proved in dataflow form (separate coordx/y/z layout, one or two element blocks): node_x/y/z are the stored arrays, node_lon/lat the lon/lat of THEIR DIRECTION (normalising conversion), nothing of the source written; _encode_ugrid proved for every dataset satisfying the Grid invariant: each variable / coordinate / dimension named by the grid_topology attributes exists, internal helper attributes are stripped, the module-level attribute templates and the caller (Grid) dataset are never stored into (ownership frames), the result is a new object; Exodus / SCRIP encoders and the encode -> open -> compare round trip incl. NetCDF are bounded (catalogue meshes x materialised quantities x earlier encodings)'
+LEVEL_TEXT = 'Grid.to_xarray / Grid.encode_as proved to hand each format name to its own encoder with the dataset / tables of THIS grid (unknown names rejected); _read_exodus proved in dataflow form (separate coordx/y/z layout, one or two element blocks): node_x/y/z are the stored arrays, node_lon/lat the lon/lat of THEIR DIRECTION (normalising conversion), nothing of the source written; _encode_ugrid proved for every dataset satisfying the Grid invariant: each variable / coordinate / dimension named by the grid_topology attributes exists, internal helper attributes are stripped, the module-level attribute templates and the caller (Grid) dataset are never stored into (ownership frames), the result is a new object; Exodus / SCRIP encoders and the encode -> open -> compare round trip incl. NetCDF are bounded (catalogue meshes x materialised quantities x earlier encodings)'
 LEVEL_NOTE = 'xarray Dataset modelled as symbolic mappings of variables / dims / attrs (copy, drop_vars, item access); Exodus / SCRIP encoders build names by string concatenation and are not under contract'
